@@ -102,6 +102,9 @@ func location(c Case, from Node, prefix string) (string, bool) {
 	case "query":
 		return "?" + to.Query, true
 	case "http":
+		// aimed at the real (TLS) listener of the target: without the scheme check the document would come back
+		return "http://%H" + fmt.Sprint(to.Host) + "%" + to.target(prefix), true
+	case "http-canary":
 		return "http://%CANARY%" + to.target(prefix), true
 	case "other-scheme":
 		return "gemini://%H0%" + to.target(prefix), true
@@ -220,7 +223,7 @@ func reference(c Case, f Fetch) expectation {
 			exp.exhausted = true
 			return exp
 		}
-		if n.LocForm == "http" || n.LocForm == "other-scheme" {
+		if n.LocForm == "http" || n.LocForm == "http-canary" || n.LocForm == "other-scheme" {
 			exp.verdict = "err"
 			return exp
 		}
@@ -476,7 +479,7 @@ func genWorld(t *rapid.T, maxNodes int) []Node {
 			n.Redirect = true
 			n.Code = rapid.SampledFrom([]int{301, 302, 303, 307, 308}).Draw(t, "code")
 			n.Next = rapid.IntRange(0, nn-1).Draw(t, "next") // may point backwards or at itself: cycles
-			n.LocForm = rapid.SampledFrom([]string{"abs", "abs", "abs", "path", "scheme-rel", "rel", "rel", "query", "none", "http", "other-scheme", "unparsable"}).Draw(t, "locform")
+			n.LocForm = rapid.SampledFrom([]string{"abs", "abs", "abs", "path", "scheme-rel", "rel", "rel", "query", "none", "http", "http", "http-canary", "other-scheme", "unparsable"}).Draw(t, "locform")
 			n.LocName = rapid.SampledFrom([]string{"", "", "", "location", "LOCATION", "X-Location", "Content-Location"}).Draw(t, "locname")
 			continue
 		}
